@@ -38,16 +38,16 @@ type cmpStep struct {
 }
 
 type comparator struct {
-	fn     *ssa.Function
-	pkg    *packages.Package
-	lname  string // identifier standing for the left element / index
-	rname  string
-	elemTy types.Type // element type being ordered (nil when index-based and unknown)
-	steps  []cmpStep
-	errs   []string
-	keysL  []string // normalised l-side keys of the chain, in order
-	afterTable bool // the last steps came from a loop over a table of key functions
-	viol   []string
+	fn         *ssa.Function
+	pkg        *packages.Package
+	lname      string // identifier standing for the left element / index
+	rname      string
+	elemTy     types.Type // element type being ordered (nil when index-based and unknown)
+	steps      []cmpStep
+	errs       []string
+	keysL      []string // normalised l-side keys of the chain, in order
+	afterTable bool     // the last steps came from a loop over a table of key functions
+	viol       []string
 }
 
 func (p *Program) pkgOfFn(f *ssa.Function) *packages.Package {
